@@ -435,7 +435,10 @@ func (m *Machine) enabled() []trans {
 			}
 		}
 	}
-	// select default: only if no case of that select is ready
+	// select default: taken when no case is *definitely* ready (buffered data, buffer space, a
+	// closed channel).  A partner parked at the other end of an unbuffered channel is only
+	// "about to" communicate: a non-blocking poll may come before it has arrived, so the
+	// default stays enabled next to the rendezvous (both orders are real executions).
 	for _, g := range m.gs {
 		op := g.parked
 		if op == nil || g.done || op.kind != opSelect || !op.hasDefault {
@@ -443,7 +446,7 @@ func (m *Machine) enabled() []trans {
 		}
 		ready := false
 		for _, t := range ts {
-			if t.g == g || t.partner == g {
+			if t.g == g && t.partner == nil {
 				ready = true
 			}
 		}
